@@ -134,7 +134,7 @@ def applyAfter (w : World) (op : Nat) : After → World
     match getObj w k with
     | none => w
     | some o =>
-      if !rep then w
+      if !rep || o.kind != .timer then w
       else if o.cancelled then setObj w { o with cancelled := false }
       else if o.tstate == .ready then armTimer w o op true       -- ScheduleOnce(repeat, ccb)
       else w                                                      -- ErrCancelled, ignored by ccb
@@ -153,11 +153,12 @@ def pollDispatch (w : World) (op : Nat) (rest : List K) : Option World :=
       | none => none
       | some o =>
         if info.kind.isTimer then
-          if o.evR && o.hR == op then
+          if o.kind == .timer && o.evR && o.hR == op then
             -- timer handler: DelRead by the poller, then `delete pendingTimers; state = ready; cb()`
             let w := setObj { w with pending := w.pending - 1 } { o with evR := false, tstate := .ready }
             some { w with stack := .user op (.timerDone o.id (info.kind == .timerRep)) :: .pollCall true :: rest }
           else none
+        else if o.kind == .timer then none
         else if info.kind.isRead then
           if o.evR && o.hR == op then
             some { (delRead w o) with stack := .user op .none :: .pollCall true :: rest }
@@ -192,15 +193,14 @@ def cancelStep (w : World) (k : Nat) (phase : Phase) (rest : List K) (e : Ev) : 
     | .ret _ => if canR || canW then none else some { w with stack := rest }
     | _ => none
 
+/-- `Close`: `poller.Del` (both interests, the pending count drops by one for each that was set), `Deregister`,
+mark closed.  Timers: `Unset` + state closed. -/
 def closeObj (w : World) (o : Obj) : World :=
   if o.kind == .timer then
     setObj (unsetPending w o) { o with evR := false, tstate := .closed }
   else
-    let w := delRead w o
-    let o' := (getObj w o.id).getD o
-    let w := delWrite w o'
-    let o'' := (getObj w o.id).getD o'
-    setObj w { o'' with closed := true, registered := false }
+    setObj { w with pending := w.pending - ((if o.evR then 1 else 0) + (if o.evW then 1 else 0)) }
+      { o with evR := false, evW := false, closed := true, registered := false }
 
 def step (w : World) (e : Ev) : Option World :=
   match w.stack, e with
@@ -229,7 +229,7 @@ def step (w : World) (e : Ev) : Option World :=
     match getObj w k with
     | none => none
     | some o =>
-      if o.closed then none
+      if o.closed || o.kind == .timer then none
       else if kind.isRead then some { (setRead w o op) with stack := rest }
       else some { (setWrite w o op) with stack := rest }
   -- Close
@@ -247,7 +247,7 @@ def step (w : World) (e : Ev) : Option World :=
     match getObj w k with
     | none => none
     | some o =>
-      if op == op' && !rep && ticks ≤ 0 && o.tstate == .ready then
+      if op == op' && !rep && ticks ≤ 0 && o.tstate == .ready && o.kind == .timer then
         some { (setObj w { o with cancelled := false }) with stack := .user op .none :: .schedCall op k rep ticks true :: rest }
       else none
   | .schedCall op k rep ticks completed :: rest, .ret (.err isNil) =>
@@ -257,12 +257,12 @@ def step (w : World) (e : Ev) : Option World :=
       if completed then (if isNil then some { w with stack := rest } else none)
       else if (rep && ticks ≤ 0) || o.tstate != .ready then (if isNil then none else some { w with stack := rest })
       else if ticks ≤ 0 then none
-      else if isNil then some { (armTimer w o op rep) with stack := rest } else none
+      else if isNil && o.kind == .timer then some { (armTimer w o op rep) with stack := rest } else none
   | .tcancelCall k :: rest, .ret (.err isNil) =>
     match getObj w k with
     | none => none
     | some o =>
-      if !isNil then none
+      if !isNil || o.kind != .timer then none
       else if o.tstate == .closed then some { w with stack := rest }
       else
         some { (setObj (unsetPending w o) { o with evR := false, cancelled := true, tstate := .ready }) with stack := rest }
@@ -287,13 +287,12 @@ def step (w : World) (e : Ev) : Option World :=
       match getObj w k with
       | none => none
       | some o =>
-        if (getOp w op).isSome then none else
-        let _ := o
+        if (getOp w op).isSome || o.kind == .timer then none else
         some { w with ops := { id := op, obj := k, kind := kind } :: w.ops, stack := .startCall op k kind false :: st }
     | .callCancel k => some (push w (.cancelCall k .reads))
     | .callClose k => some (push w (.closeCall k))
     | .callSched op k rep ticks =>
-      if (getOp w op).isSome then none else
+      if (getOp w op).isSome || ((getObj w k).map (·.kind)) != some .timer then none else
       some { w with ops := { id := op, obj := k, kind := if rep then .timerRep else .timerOnce } :: w.ops,
                     stack := .schedCall op k rep ticks false :: st }
     | .callTCancel k => some (push w (.tcancelCall k))
